@@ -133,6 +133,15 @@ PrefixInterval == \A h \in DOMAIN objs : objs[h].kind \in Ordered => \A p \in St
 \* C06 / C08 / C14: images and loaded objects denote what was saved; saving and querying change nothing
 ImagesDenote  == \A i \in 1..Len(imgs) : \E h \in DOMAIN objs : Image(objs[h]) = imgs[i]
 Immutable     == [][\A h \in DOMAIN objs : h \in DOMAIN objs' /\ Image(objs'[h]) = Image(objs[h])]_vars
+\* C08: an image, once written, is never altered by later saves, loads, queries or destructions
+ImagesAppendOnly == [][Len(imgs') >= Len(imgs) /\ SubSeq(imgs', 1, Len(imgs)) = imgs]_vars
+\* C13: while an iterator is open it stays bound to its dictionary and every step delivers at most one element, never twice
+IterShrinks   == [][\A it \in DOMAIN iters : it \in DOMAIN iters' =>
+                       /\ iters'[it].h = iters[it].h /\ iters'[it].type = iters[it].type
+                       /\ iters'[it].pending \subseteq iters[it].pending
+                       /\ Cardinality(iters[it].pending \ iters'[it].pending) <= 1]_vars
+\* C07 / C16: a destroyed handle is never revived, and no step other than Destroy changes liveness
+DeadStaysDead == [][\A h \in DOMAIN objs : h \in DOMAIN objs' /\ (~objs[h].alive => ~objs'[h].alive)]_vars
 \* C12: two objects of one kind over the same S answer alike up to their tables; ordered kinds agree on every ID
 ParamIndependence == \A g, h \in DOMAIN objs : (objs[g].S = objs[h].S /\ objs[g].kind \in Ordered /\ objs[h].kind \in Ordered)
                         => objs[g].table = objs[h].table
